@@ -16,8 +16,6 @@ Proof.
   destruct (r_tm x) as [|[dl|]|]; simpl; auto. destruct (Z.leb dl t'); simpl; auto.
 Qed.
 
-Lemma tick_runners s d : runners (tick s d) = fst (fire (runners s) 0 (now s + d)%Z).
-Proof. unfold tick. destruct (fire (runners s) 0 (now s + d)%Z); reflexivity. Qed.
 
 (* pointwise runner invariants that every field update except [r_close] preserves *)
 Ltac runner_forall :=
